@@ -244,6 +244,15 @@ def _exec_call_backend(ssj, call, objs=None):
 
 
 def _exec_call(ssj, call, objs=None):
+    if call.get('threshold_np') and 'threshold' in call:
+        call = dict(call)
+        call.pop('threshold_np')
+        t = call['threshold']
+        call['threshold'] = np.int64(t) if isinstance(t, int) else np.float64(t)
+    return _exec_call2(ssj, call, objs)
+
+
+def _exec_call2(ssj, call, objs=None):
     """Run one API call.  `objs` may carry pre-built shared objects: 'ltable', 'rtable',
     'candset', 'tok' (used as is when present); otherwise they are built from the specs."""
     objs = objs or {}
